@@ -195,7 +195,11 @@ pub fn tracegen(opts: &Opts) -> i32 {
             let inv = tracer.next();
             let r = if ttl > 0 { st.insert_with_ttl_and_timestamp(k, v, ttl, ts) } else { st.insert_with_timestamp(k, v, ts) };
             let ret = tracer.next();
-            let t = st.verif_snapshot().iter().find(|x| x.key == k).map_or(ts.unwrap_or(0), |x| x.timestamp);
+            // explicit timestamps are known; only automatic ones have to be read back
+            let t = match ts {
+                Some(t) => t,
+                None => st.verif_snapshot().iter().find(|x| x.key == k).map_or(0, |x| x.timestamp),
+            };
             tracer.note(format!(
                 "{inv} OP put key={} vh={:016x} len={} ret={ret} res={} ts={t} expired={}",
                 hex(k),
@@ -233,8 +237,24 @@ pub fn tracegen(opts: &Opts) -> i32 {
         tracer.note(format!("{seq} PHASE rewrite"));
         // every X rewritten with a generation that is expired on arrival (expiry in 1970); best fit
         // puts the new generations into the one-block holes below the old ones
-        for i in 0..nx {
-            put(format!("xkey{i:05}").as_bytes(), &value_for(30_000 + i, 70), Some(2000), 1, true);
+        // as fast as possible (keys and values prepared, notes written afterwards): the whole
+        // rewrite must reach the write buffer between two ticks of the periodic flusher
+        let prepared: Vec<(Vec<u8>, Vec<u8>)> = (0..nx).map(|i| (format!("xkey{i:05}").into_bytes(), value_for(30_000 + i, 70))).collect();
+        let mut done = Vec::with_capacity(prepared.len());
+        for (k, v) in &prepared {
+            let inv = tracer.next();
+            let r = st.insert_with_ttl_and_timestamp(k, v, 1, Some(2000));
+            let ret = tracer.next();
+            done.push((inv, ret, r.is_ok()));
+        }
+        for ((k, v), (inv, ret, ok)) in prepared.iter().zip(done) {
+            tracer.note(format!(
+                "{inv} OP put key={} vh={:016x} len={} ret={ret} res={} ts=2000 expired=1",
+                hex(k),
+                fnv1a(v),
+                v.len(),
+                if ok { "ok" } else { "err" }
+            ));
         }
         flush();
     } else {
@@ -1049,39 +1069,79 @@ pub fn run_f1(opts: &Opts) -> i32 {
     let seed = opts.u64("seed", 1);
     let keep = format!("{dir}/images");
     std::fs::create_dir_all(&keep).unwrap();
-    let mut out = Out::new(&dir, "s0");
+    let mut outs: Vec<Out> = (0..8).map(|i| Out::new(&dir, &format!("s{i}"))).collect();
+    let mut turn = 0usize;
+    macro_rules! out {
+        () => {{
+            turn += 1;
+            &mut outs[turn % 8]
+        }};
+    }
     let base = format!("{keep}/f1.feox");
     let blocks = opts.u64("blocks", 4096);
-    let args = vec![
-        "-c".to_string(),
-        "0,1".to_string(),
-        crate::img::self_exe().to_string_lossy().to_string(),
-        "tracegen".into(),
-        format!("path={base}"),
-        format!("seed={seed}"),
-        format!("blocks={blocks}"),
-        "ttl=1".into(),
-        format!("sync={}", seed % 2),
-        "recipe=f1".into(),
-        format!("fillers={}", opts.u64("fillers", 1200)),
-        format!("xkeys={}", opts.u64("xkeys", 600)),
-        "close=0".into(),
-    ];
-    let g = std::process::Command::new("taskset").args(&args).output().ok().map(|o| String::from_utf8_lossy(&o.stdout).trim().to_string());
-    if g.as_deref().map_or(true, |s| !s.starts_with("tracegen-done")) {
-        out.emit3(&format!("note tracegen-failed {:?}", g), "note", "FAIL workload-child-failed-or-hung");
-        out.finish();
-        return 0;
-    }
-    let Some(t) = load_trace(&base) else {
-        out.emit3("note trace-unreadable", "note", "FAIL trace-unreadable");
-        out.finish();
-        return 0;
+    // The periodic flusher may cut the rewrite phase into several flushes; the replay needs one
+    // flush with more than 1024 superseded generations pending, so the workload is regenerated
+    // (new seed) until the trace has such an instant.
+    let pending_peak = |t: &Trace, phase: u64| -> i64 {
+        let (mut d, mut mk, mut best) = (0i64, 0i64, 0i64);
+        for e in &t.evs {
+            match e {
+                Ev::W { seq, off, at, len, applied: true } if *seq > phase && *off >= 16 * 4096 => {
+                    if *len >= 8 && &t.data[*at..*at + 8] == b"\0DELETED" {
+                        mk += (*len as i64) / 4096;
+                    } else {
+                        d += (*len as i64) / 4096;
+                    }
+                }
+                Ev::F { seq, ok: true } if *seq > phase => best = best.max(d - mk),
+                _ => {}
+            }
+        }
+        best
     };
-    let phase: u64 = std::fs::read_to_string(format!("{base}.trace"))
-        .ok()
-        .and_then(|x| x.lines().find(|l| l.contains(" PHASE rewrite")).and_then(|l| l.split(' ').next().and_then(|v| v.parse().ok())))
-        .unwrap_or(0);
+    let mut attempt = 0;
+    let (t, phase) = loop {
+        let args = vec![
+            "-c".to_string(),
+            // many shards: each stays below its own "buffer full" trigger (512 entries), and the one
+            // explicit flush then retires every superseded generation in a single call
+            opts.str("cpus", "0,1"),
+            crate::img::self_exe().to_string_lossy().to_string(),
+            "tracegen".into(),
+            format!("path={base}"),
+            format!("seed={}", seed + 1000 * attempt),
+            format!("blocks={blocks}"),
+            "ttl=1".into(),
+            format!("sync={}", (seed + attempt) % 2),
+            "recipe=f1".into(),
+            format!("fillers={}", opts.u64("fillers", 1200)),
+            format!("xkeys={}", opts.u64("xkeys", 600)),
+            "close=0".into(),
+        ];
+        let g = std::process::Command::new("taskset").args(&args).output().ok().map(|o| String::from_utf8_lossy(&o.stdout).trim().to_string());
+        if g.as_deref().map_or(true, |s| !s.starts_with("tracegen-done")) {
+            out!().emit3(&format!("note tracegen-failed {:?}", g), "note", "FAIL workload-child-failed-or-hung");
+            for o in outs {
+                o.finish();
+            }
+            return 0;
+        }
+        let Some(t) = load_trace(&base) else {
+            out!().emit3("note trace-unreadable", "note", "FAIL trace-unreadable");
+            for o in outs {
+                o.finish();
+            }
+            return 0;
+        };
+        let phase: u64 = std::fs::read_to_string(format!("{base}.trace"))
+            .ok()
+            .and_then(|x| x.lines().find(|l| l.contains(" PHASE rewrite")).and_then(|l| l.split(' ').next().and_then(|v| v.parse().ok())))
+            .unwrap_or(0);
+        attempt += 1;
+        if pending_peak(&t, phase) > 200 || attempt >= 6 {
+            break (t, phase);
+        }
+    };
     let states = key_states(&t);
     let ack = acks(&t);
     let syncs: Vec<u64> = t.evs.iter().filter_map(|e| if let Ev::F { seq, ok: true } = e { Some(*seq) } else { None }).filter(|s| *s > phase).collect();
@@ -1090,6 +1150,55 @@ pub fn run_f1(opts: &Opts) -> i32 {
     if let Some(l) = syncs.last() {
         cuts.push(*l);
     }
+    // the instants that matter most: every new generation is durable, the run-time retirement of
+    // the superseded ones (one retire_extents call for the whole flush) has not started or is
+    // between two of its journal chunks
+    let first_marker = t.evs.iter().find_map(|e| match e {
+        Ev::W { seq, at, len, applied: true, .. } if *seq > phase && *len >= 8 && &t.data[*at..*at + 8] == b"\0DELETED" => Some(*seq),
+        _ => None,
+    });
+    if let Some(m) = first_marker {
+        let before: Vec<u64> = syncs.iter().copied().filter(|s| *s < m).collect();
+        if opts.u64("narrow", 0) == 1 {
+            // quick tier: only the instant with the longest pending retirement = the fsync after
+            // which the most rewritten generations are durable and the fewest markers
+            cuts.clear();
+            let (mut d, mut mk, mut best, mut best_seq) = (0i64, 0i64, -1i64, None);
+            let mut journal_active = false;
+            for e in &t.evs {
+                match e {
+                    Ev::W { off, at, len, applied: true, .. } if *off >= 4096 && *off < 7 * 4096 => {
+                        // a journal slot write: ACTIVE lists extents, CLEAR lists none
+                        // journal writes alternate ACTIVE / CLEAR (monitor rule R1'): toggle
+                        let _ = (at, len);
+                        journal_active = !journal_active;
+                    }
+                    Ev::W { seq, off, at, len, applied: true } if *seq > phase && *off >= 16 * 4096 => {
+                        if *len >= 8 && &t.data[*at..*at + 8] == b"\0DELETED" {
+                            mk += (*len as i64) / 4096;
+                        } else {
+                            d += (*len as i64) / 4096;
+                        }
+                    }
+                    Ev::F { seq, ok: true } if *seq > phase => {
+                        // the LAST fsync at the peak: the batch's journal is clear again, the
+                        // retirement has not started
+                        if d - mk >= best && !journal_active {
+                            best = d - mk;
+                            best_seq = Some(*seq);
+                        }
+                    }
+                    _ => {}
+                }
+            }
+            cuts.extend(best_seq);
+            let _ = &before;
+        } else {
+            cuts.extend(before.iter().rev().take(2));
+            cuts.extend(syncs.iter().copied().filter(|s| *s > m).take(4));
+        }
+    }
+    cuts.sort();
     cuts.dedup();
     let mut longest = 0usize;
     for (pi, s1) in cuts.iter().enumerate() {
@@ -1104,10 +1213,10 @@ pub fn run_f1(opts: &Opts) -> i32 {
         let (now1, rs1, _) = (0u64, 0u64, 0u64);
         let _ = (now1, rs1);
         let Some(c1) = contents_of(&line1) else {
-            out.emit3(&format!("note f1 first-level cut={s1}"), "note", &format!("FAIL first-level-image-does-not-reopen {}", line1.chars().take(60).collect::<String>()));
+            out!().emit3(&format!("note f1 first-level cut={s1}"), "note", &format!("FAIL first-level-image-does-not-reopen {}", line1.chars().take(60).collect::<String>()));
             continue;
         };
-        out.emit3(&format!("note f1 first-level cut={s1}"), "note", &v1);
+        out!().emit3(&format!("note f1 first-level cut={s1}"), "note", &v1);
         let Some(mut rt) = load_trace(&work) else { continue };
         rt.base = Some(img1.clone());
         let rsyncs: Vec<u64> = rt.evs.iter().filter_map(|e| if let Ev::F { seq, ok: true } = e { Some(*seq) } else { None }).collect();
@@ -1126,12 +1235,12 @@ pub fn run_f1(opts: &Opts) -> i32 {
             if verdict == "ok" {
                 // keep the disk small: only the images the model still has to read stay
             }
-            out.emit3(&format!("open {p2} ro=0 allow=0 ttl=1 now={now} recsize={recsize} level=2 plan=fsync{s1} inner=fsync{qi}"), &line2, &verdict);
+            out!().emit3(&format!("open {p2} ro=0 allow=0 ttl=1 now={now} recsize={recsize} level=2 plan=fsync{s1} inner=fsync{qi}"), &line2, &verdict);
         }
         let _ = std::fs::remove_file(&p1);
     }
     std::fs::write(format!("{dir}/stats.json"), format!("{{\"largest_number_of_writes_in_one_recovery\": {longest}}}")).unwrap();
-    let n = out.finish();
+    let n: u64 = outs.into_iter().map(|o| o.finish()).sum();
     println!("cases={n}");
     0
 }
